@@ -61,7 +61,7 @@ def _cmp(a, op, b):
 
 
 class Ctx(object):
-    def __init__(self, pid, tier, seed):
+    def __init__(self, pid, tier, seed, keep_replays=False):
         self.pid = pid
         self.tier = tier
         self.seed = seed
@@ -70,7 +70,7 @@ class Ctx(object):
         os.makedirs(self.outdir, exist_ok=True)
         os.makedirs(os.path.join(OUT, "replays"), exist_ok=True)
         os.makedirs(EVIDENCE, exist_ok=True)
-        for fn in os.listdir(os.path.join(OUT, "replays")):
+        for fn in ([] if keep_replays else os.listdir(os.path.join(OUT, "replays"))):
             if fn.startswith(pid + "-"):
                 os.remove(os.path.join(OUT, "replays", fn))
         self.states = 0
